@@ -112,7 +112,7 @@ Section DeliveryProofs.
       - cbn [Noise.enc_all] in Hall.
         inversion Hok as [|? ? Hm Hms]; subst.
         destruct (enc_dec_one hkdf2 seal open seal_len open_seal ts tr m Hs (proj2 Hm))
-          as [hdr [body [ts1 [tr1 [tr2 [Henc [Hlh [Hlb [Hdh [Hdb [Hs2 [_ [_ [_ [Hu1 [Hu2 Hu3]]]]]]]]]]]]]]].
+          as (hdr & body & ts1 & tr1 & tr2 & Henc & Hlh & Hlb & Hdh & Hdb & Hs2 & _ & _ & _ & Hu1 & Hu2 & Hu3).
         rewrite Henc in Hall.
         destruct (enc_all ts1 ms) as [[cs1 ts2]|] eqn:Hrest; [|discriminate].
         inversion Hall; subst cs ts'. clear Hall.
@@ -259,7 +259,7 @@ Section DeliveryProofs.
       destruct (rotate_synced hkdf2 ts1 tr1 Hsy) as [[Hk [Hn _]] _].
       (* shape of the honest frame *)
       destruct (enc_dec_one hkdf2 seal open seal_len open_seal ts1 tr1 m Hsy (proj2 Hm))
-        as [hdr0 [body0 [ts2' [tr1' [tr2' [Henc0 [Hlh0 [Hlb0 [Hdh0 [Hdb0 _]]]]]]]]]].
+        as (hdr0 & body0 & ts2' & tr1' & tr2' & Henc0 & Hlh0 & Hlb0 & Hdh0 & Hdb0 & _).
       rewrite Henc in Henc0. inversion Henc0 as [[Happ Hts]].
       assert (Hhdr : hdr = hdr0).
       { apply (f_equal (firstn 18)) in Happ. rewrite !firstn_app_exact in Happ by assumption. exact Happ. }
@@ -300,7 +300,7 @@ Section DeliveryProofs.
       intros Hs Hlt Henc Hfs.
       assert (Hmax : blen m <= LN_MAX_MSG_LEN) by (unfold MIN_MSG_LEN, LN_MAX_MSG_LEN in *; lia).
       destruct (enc_dec_one hkdf2 seal open seal_len open_seal ts tr m Hs Hmax)
-        as [hdr [body [ts1 [tr1 [tr2 [Henc0 [Hlh [Hlb [Hdh _]]]]]]]]].
+        as (hdr & body & ts1 & tr1 & tr2 & Henc0 & Hlh & Hlb & Hdh & _).
       rewrite Henc in Henc0. inversion Henc0; subst c ts'.
       rewrite feed_all_concat, Hfs.
       unfold Framing.feed, transport_conn. cbn [c_status c_st].
